@@ -1,4 +1,5 @@
 import FunProofs.Err
+import FunProofs.ErrLeaf
 
 /-! C12 — error aggregation is lossless and errors.Is/As/Unwind-consistent.
     Property theorems only; helper lemmas are in `FunProofs/Err.lean`.
@@ -82,6 +83,31 @@ theorem as_join_isSome_iff (es : ErrList) (ty : Nat) :
     exact ⟨c, by simpa using hc, a, hca⟩
   · rintro ⟨c, hc, a, hca⟩
     cases hf : xs.reverse.findSome? (fun c => c.as ty) with
+    | some b => exact ⟨b, rfl⟩
+    | none =>
+      rw [List.findSome?_eq_none_iff] at hf
+      have := hf c (by simpa using hc)
+      simp [hca] at this
+
+/-- errors.As with a leaf-typed target (`*ers.Error`, the comparable constants): on the result of a
+    Join it finds the first constituent (most recent first) that holds such a constant behind single or
+    multi wrapping — and it succeeds exactly when some constituent does. -/
+theorem asLeaf_join_parts (p : Nat → Bool) (es : ErrList) :
+    asLeafOpt p (join es) = es.partsAll.reverse.findSome? (fun c => c.asLeaf p) := by
+  unfold join; rw [resolve_asLeaf, flatten_eq]
+
+theorem asLeaf_join_isSome_iff (p : Nat → Bool) (es : ErrList) :
+    (asLeafOpt p (join es)).isSome = es.partsAll.any (fun c => (c.asLeaf p).isSome) := by
+  rw [asLeaf_join_parts]
+  generalize es.partsAll = xs
+  rw [Bool.eq_iff_iff]
+  simp only [Option.isSome_iff_exists, List.any_eq_true]
+  constructor
+  · rintro ⟨a, ha⟩
+    obtain ⟨c, hc, hca⟩ := List.exists_of_findSome?_eq_some ha
+    exact ⟨c, by simpa using hc, a, hca⟩
+  · rintro ⟨c, hc, a, hca⟩
+    cases hf : xs.reverse.findSome? (fun c => c.asLeaf p) with
     | some b => exact ⟨b, rfl⟩
     | none =>
       rw [List.findSome?_eq_none_iff] at hf
